@@ -177,6 +177,22 @@ pub fn spaces(tier: Tier) -> Vec<Space<'static>> {
     let l = if tier.thorough() { 7 } else { 6 };
     let nt = TOKENS.len() as u64;
     let tot: u64 = (0..=l).map(|k| nt.pow(k)).sum();
+    // multi-byte sequences (byte order marks, Unicode white space, NUL run, CRLF, VT) at every position
+    {
+        const SEQS: [&[u8]; 10] = [b"\xEF\xBB\xBF", b"\xFE\xFF", b"\xC2\x85", b"\xC2\xA0", b"\xE2\x80\xA8", b"\xE3\x80\x80", b"\xE2\x80\x8B", b"\x00\x00", b"\r\n", b"\x0B"];
+        let bases: Vec<&str> = vec!["{}", "{a}", "{a,1}", "{ a , -1 , \"b c\" }", "{\"a\\n\",b}", "{0}"];
+        sp.push(Space::new("multi-byte sequences (BOMs, Unicode white space, NUL run, CRLF, VT) inserted at every position", bases.len() as u64, move |i, acc| {
+            let t = bases[i as usize].as_bytes();
+            for pos in 0..=t.len() {
+                for s in SEQS {
+                    let mut x = t[..pos].to_vec();
+                    x.extend_from_slice(s);
+                    x.extend_from_slice(&t[pos..]);
+                    judge_raw(&x, acc);
+                }
+            }
+        }));
+    }
     // names that look like something else: float keywords, exponent forms, literals, keywords of the path language
     {
         const LOOKALIKES: [&str; 28] = ["nan", "NaN", "NAN", "inf", "Inf", "infinity", "Infinity", "-inf", "+inf", "e5", "1e5", "1E5", "0x10", "true", "false", "null", "last", "to", "1a", "a1", "-a", "+a", "1.5", ".5", "5.", "--1", "1_000", "1e"];
